@@ -12,6 +12,8 @@ def install(reg):
     E = reg.externals
     M = reg.methods
     reg.extra_types = getattr(reg, "extra_types", {})
+    install_configparser(reg)
+    install_misc_externals(reg)
 
     # ------------------------------------------------------------------ builtins
     def b_len(p, args, kw):
@@ -435,6 +437,12 @@ def install(reg):
 
             def rule(i):
                 p.engine.dict_key_facts(p, t, i)
+                inr = z3.And(i >= 0, i < z3.Length(keys))
+                if snap.tag.get("lower_keys"):
+                    p.assume(z3.Implies(inr, z3.And(KEY.is_KStr(keys[i]),
+                                                    p.engine.uf("str_lower", S, S)(KEY.ks(keys[i])) == KEY.ks(keys[i]))))
+                if snap.tag.get("str_values"):
+                    p.assume(z3.Implies(inr, PV.is_PStr(z3.Select(mp, keys[i]))))
                 if dom:
                     p.assume(z3.Implies(z3.And(i >= 0, i < z3.Length(keys)),
                                         z3.Or([keys[i] == key_of_const(c) for c in dom])))
@@ -462,6 +470,18 @@ def install(reg):
             return p.dict_get(h, key)
         return default
     M[("HDict", "get")] = d_get
+
+    def d_pop(p, recv, args, kw):
+        h = p.heap[recv.rid]
+        key = args[0]
+        if p.branch(p.dict_has(h, key)):
+            v = p.dict_get(h, key)
+            p.dict_del(h, key)
+            return v
+        if len(args) > 1:
+            return args[1]
+        p.raise_("KeyError")
+    M[("HDict", "pop")] = d_pop
 
     def d_setdefault(p, recv, args, kw):
         h = p.heap[recv.rid]
@@ -571,3 +591,40 @@ def install_engine_theories(Engine):
         path.assume(z3.Select(has, kt) == self.uf("key_in", KEYSEQ, KEY, B)(keys, kt))
         return i
     Engine.key_index_facts = key_index_facts
+
+
+def install_configparser(reg):
+    E = reg.externals
+    M = reg.methods
+
+    def cp_new(p, args, kw):
+        p.engine.assumption("configparser: option names are lower-cased, values are str, continuation lines joined with '\\n' "
+                            "(assumed; exercised natively)")
+        return p.alloc(HObj("ConfigParser", {}))
+    E["configparser.ConfigParser"] = cp_new
+
+    def cp_read(p, recv, args, kw):
+        return VNone()
+    M[("obj:ConfigParser", "read")] = cp_read
+
+    def cp_getitem(p, recv, args, kw):
+        sec = p.ghost.get("config_section")
+        if sec is None:
+            raise Unsupported("config section not declared by the contract (ghost config_section)")
+        return sec
+    M[("obj:ConfigParser", "__getitem__")] = cp_getitem
+
+
+def install_misc_externals(reg):
+    E = reg.externals
+
+    def dt_now(p, args, kw):
+        return p.alloc(HObj("datetime", {}))
+    E["datetime.datetime.now"] = dt_now
+
+    def dt_timestamp(p, args, kw):
+        p.engine.assumption("the clock (datetime.now) is an arbitrary value")
+        t = p.fresh("clock", R)
+        p.assume(t >= 0)
+        return VFloat(t)
+    E["datetime.datetime.timestamp"] = dt_timestamp
